@@ -61,6 +61,9 @@ package ethnode
 //@ func (Peers).IDs
 //@ property C15
 //@ safety on
+//@ ensures [one-id-per-peer] len(result) == len(peers)
+//@ modifies nothing
+//@ loop 0 invariant [count] len(r) == rangeidx
 
 // ---- the node as seen by the agent: ghost logs of the peer operations performed on it ----
 // one append-only log per operation: rm = RemoveTrustedPeer, dc = DisconnectPeer, cn = ConnectPeer, tr = AddTrustedPeer
